@@ -10,9 +10,9 @@ import re
 import uuid
 
 import th
-from d42 import validate
+from d42 import validate, validate_or_fail
 from d42.substitution import SubstitutorValidator
-from d42.validation import Formatter
+from d42.validation import Formatter, ValidationException, format_result
 
 from .. import model as M
 from ..codec import src, unsrc
@@ -101,6 +101,10 @@ def values_for(t, tier):
                 extra.append(d)
     # not-a-number against whatever the schema says about floats: no error about it may state a
     # comparison (nan is neither below a minimum nor above a maximum)
+    # a big wrong-typed sub-value (its rendering is long) at every position of a witness
+    for w in M.witnesses(t)[:1]:
+        for big in ("q" * 3000, list(range(700))):
+            extra += inject(w, big, max_out=6)
     nan = float("nan")
     extra.append(nan)
     for w in M.witnesses(t)[:1]:
@@ -275,7 +279,7 @@ def check_errors(t, v, errors, builder, which):
     seen = set()
     for e in errors:
         try:
-            key = (type(e).__name__, tuple(repr(k) for k in path_keys(e.path)), safe_repr(e, 400))
+            key = (type(e).__name__, tuple(repr(k) for k in path_keys(e.path)), repr(e))
         except Exception:  # noqa: BLE001
             continue
         if key in seen:
@@ -376,7 +380,48 @@ def examine(t, v, builder, s, acc=None):
                 acc.n["kind:" + type(e).__name__.replace("ValidationError", "")
                       + ":depth" + str(min(len(keys), 3))] += 1
         found.extend(check_errors(t, v, errors, builder, which))
+        if which == "validator" and errors:
+            found.extend(rendered_lines_name_paths(s, v, errors))
     return found
+
+
+def _full_path(e):
+    keys = list(path_keys(e.path))
+    name = type(e).__name__
+    if name == "MissingKeyValidationError":
+        keys.append(e.missing_key)
+    elif name == "MissingElementValidationError":
+        keys.append(e.index)
+    return keys
+
+
+def rendered_lines_name_paths(s, v, errors):
+    """The renderings users actually see - format_result(result) and the message carried by
+    validate_or_fail's exception - have one line per error, and each names that error's path."""
+    try:
+        lines = format_result(validate(s, v))[1:]
+    except Exception:  # noqa: BLE001  (rendering totality is C08's business)
+        return
+    try:
+        validate_or_fail(s, v)
+        raised = None
+    except ValidationException as ex:
+        raised = [x for x in str(ex).split("\n - ")][1:]
+    except Exception:  # noqa: BLE001
+        return
+    for which, got in (("format_result", lines), ("validate_or_fail", raised)):
+        if got is None or len(got) != len(errors):
+            continue                      # the line count is C08's clause
+        for e, line in zip(errors, got):
+            try:
+                full = _full_path(e)
+            except Exception:  # noqa: BLE001
+                continue
+            if full and render_path(full) not in line:
+                name = type(e).__name__.replace("ValidationError", "")
+                yield (f"C03|{which}|line-does-not-name-path|{name}|depth{len(full)}",
+                       line[:120] + " ... " + line[-80:])
+                return
 
 
 def merge_check(t, s, vals, builder):
